@@ -70,7 +70,7 @@ $(B)/threads: worlds/threads.cpp $(B)/sched.o $(GUESTSO) $(HDRS) $(SIMH) | $(B)
 $(B)/threads.tls: worlds/threads.cpp $(B)/sched.o $(GUESTSO) $(HDRS) $(SIMH) | $(B)
 	$(CXX) $(TLS) $< $(B)/sched.o -o $@ $(LIBS)
 $(B)/threads.tsan: worlds/threads.cpp $(B)/sched.clang.o $(GUESTSO) $(HDRS) $(SIMH) | $(B)
-	$(CLANGXX) $(COMMON) -O1 -fsanitize=thread -DSIM_BUILD_NAME='"tsan"' $< $(B)/sched.clang.o -o $@ $(LIBS)
+	$(CLANGXX) $(COMMON) -O1 -fsanitize=thread -DTH_TIMING -DSIM_BUILD_NAME='"tsan"' $< $(B)/sched.clang.o -o $@ $(LIBS)
 
 $(B)/mem.p64: worlds/mem.cpp $(HDRS) $(SIMH) | $(B)
 	$(CXX) $(PLAIN) -DSIM_PTR_T=uint64_t -DSIM_BUILD_NAME='"p64"' $< -o $@ $(LIBS)
